@@ -24,6 +24,29 @@ CHECKS = {
         "Trusted: NumPy in the model. Corner cells under two different fill values are not compared (order-dependent by nature).",
         "DESIGN.md 4/C02",
     ),
+    "C03": (
+        "Hypothesis-generated face decompositions with D4 orientations vs geometric reference on the undivided domain",
+        "Generated-input search over decompositions (all 8 link kinds, self-links, up to 9 faces) with the link table derived from "
+        "geometry; the oracle evaluates the operation on the undivided field through each face's affine index map and never reads "
+        "the link table.",
+        "Trusted: the geometric model (vfw/model/topology.py). Square faces, N<=4.",
+        "DESIGN.md 4/C03",
+    ),
+    "C04": (
+        "Hypothesis-generated non-reversed decompositions vs undivided edge-flux fields and divergence",
+        "Generated-input search over lat-lon-cap-like decompositions (same-axis and axis-swapping non-reversed links) and the "
+        "single-face grid; oracle = global edge fields with orientation signs, plus divergence and the simple-grid equivalence clause.",
+        "Trusted: the geometric model. C-grid components moved to centres only.",
+        "DESIGN.md 4/C04",
+    ),
+    "C05": (
+        "Hypothesis-generated random reciprocal link tables vs index-level statement of the link semantics + exchange symmetry",
+        "Generated-input search over random reciprocal tables (2-6 faces, all 8 link kinds, self-links), asymmetric widths up to N, "
+        "all rules on open edges, scalar and vector inputs; oracle is the property's statement written as index arithmetic; symmetry "
+        "is checked from outputs alone.",
+        "Trusted: vfw/model/links.py. Corner cells are masked (covered by C12).",
+        "DESIGN.md 4/C05",
+    ),
     "C09": (
         "Hypothesis-generated layouts/shifts/rules vs geometric running-sum model + inverse/commutation/cumint relations",
         "Generated-input search against a running-sum model stated on coordinates (sum of inputs before the target point) "
